@@ -519,11 +519,11 @@ DefaultSteps == << [ops |-> {"(", "f1(", "f2(", "logb(", "pow("}, otype |-> "ARG
                    [ops |-> {"||"},              otype |-> "BINARY"] >>
 NumAtomToks == {t \in AllAtomToks : AT(t).kind \in NumKinds}
 MN == INSTANCE SolverMachine WITH
-        Lenient <- FALSE, Atoms <- NumAtomToks, BadAtoms <- {},
+        Lenient <- FALSE, PyEq <- FALSE, Atoms <- NumAtomToks, BadAtoms <- {},
         OpTable <- {"(", "f1(", "pow(", "**", "*", "/", "+", "-"},
         Steps <- DefaultSteps
 ML == INSTANCE SolverMachine WITH
-        Lenient <- TRUE, Atoms <- AllAtomToks, BadAtoms <- {},
+        Lenient <- TRUE, PyEq <- TRUE, Atoms <- AllAtomToks, BadAtoms <- {},
         OpTable <- {"(", "==", "!=", "!", "<=", ">=", "<", ">", "&&", "||"},
         Steps <- DefaultSteps
 ToM(s) == [i \in 1..Len(s) |-> IF s[i] = "~" THEN "!" ELSE s[i]]
